@@ -4,7 +4,27 @@ import "github.com/sahandsafizadeh/qeep/tensor/internal/tensor"
 import "github.com/sahandsafizadeh/qeep/tensor/internal/verifhook"
 
 func BackPropagate(t tensor.Tensor) (err error) {
+	markPending(gradContextOf(t), make(map[*GradContext]bool))
 	return backward(startEdge(t))
+}
+
+// markPending counts, for every tracked context reachable from gctx, the back
+// edges through which this back-propagation will deliver a gradient to it.
+func markPending(gctx *GradContext, visited map[*GradContext]bool) {
+	if !gctx.tracked {
+		return
+	}
+
+	if !visited[gctx] {
+		visited[gctx] = true
+		gctx.pending = 0
+
+		for _, e := range gctx.backEdges {
+			markPending(gradContextOf(e.target), visited)
+		}
+	}
+
+	gctx.pending++
 }
 
 func startEdge(t tensor.Tensor) (edge *backwardEdge) {
@@ -36,6 +56,13 @@ func backward(edge *backwardEdge) (err error) {
 	err = accumulateGrad(gctx, grad)
 	if err != nil {
 		return
+	}
+
+	// a context with several consumers passes its gradient on only once,
+	// after every consumer has delivered its share (total derivative)
+	gctx.pending--
+	if gctx.pending > 0 {
+		return nil
 	}
 
 	for _, e := range gctx.backEdges {
